@@ -1,8 +1,11 @@
 package main
 
 import (
+	"bytes"
 	"fmt"
 	"reflect"
+	"sync"
+	"sync/atomic"
 
 	protov1 "github.com/golang/protobuf/proto"
 	"github.com/jhump/protoreflect/desc"
@@ -366,6 +369,45 @@ func runC18(o *hx.Out, r *hx.Rand, thorough bool) {
 			cls = classify(func() error { return ad.c.Copy(dst, np) })
 			o.Case("non_proto_"+ad.name, fmt.Sprintf("Op %d true 9 1 false false false false false \"Copy *struct -> Message\" %d false false %s false", ai, cls, hx.B(np.X == 7 && dst.Count == 5)),
 				map[string]interface{}{"adapter": ad.name, "op": "Copy", "source": "*struct{X int}", "destination": "Message", "outcome": cls})
+		}
+	}
+	// copies made at the same time by many goroutines (concurrent calls on one channel) are each faithful
+	for _, cn := range []string{"codec", "default"} {
+		var cl inprocgrpc.Cloner = inprocgrpc.ProtoCloner{}
+		if cn == "codec" {
+			cl = inprocgrpc.CodecCloner(encoding.GetCodec("proto"))
+		}
+		var wg sync.WaitGroup
+		var wrong, failed int32
+		for g := 0; g < 32; g++ {
+			wg.Add(1)
+			go func(g int) {
+				defer wg.Done()
+				src := &hx.Msg{Count: int32(g), Payload: bytes.Repeat([]byte{byte(g + 1)}, 20000+g*500)}
+				for i := 0; i < 150; i++ {
+					dst := &hx.Msg{}
+					var err error
+					if i%2 == 0 {
+						err = cl.Copy(dst, src)
+					} else {
+						var c interface{}
+						if c, err = cl.Clone(src); err == nil {
+							dst = c.(*hx.Msg)
+						}
+					}
+					if err != nil {
+						atomic.AddInt32(&failed, 1)
+					} else if !proto.Equal(dst, src) {
+						atomic.AddInt32(&wrong, 1)
+					}
+				}
+			}(g)
+		}
+		wg.Wait()
+		if wrong+failed > 0 {
+			o.Violate("copies made concurrently by several goroutines were not each equal to their source",
+				map[string]interface{}{"cloner": cn, "goroutines": 32, "copies_each": 150, "message_bytes": "20000..35500, distinct per goroutine"},
+				fmt.Sprintf("%d copies differed from their source, %d failed", wrong, failed), "every copy equal to its source")
 		}
 	}
 	o.Oracle = "oracle_or_finding"
